@@ -26,7 +26,7 @@ RULE = ("cases = call histories run(a1), ..., run(ak), k = 2..6, on one parser o
         "worker process, workers running under PYTHONHASHSEED 0, 1, 4242, 31337, random...; every run() executes in an empty scratch "
         "cwd under a file-system audit hook. Non-trivial = history with >= 2 different argument sets on a script with >= 2 "
         "entities; distinct = distinct (script, history)."
-        " Added after seeded defects: file_path / dump_path arguments without dump, parse_from_file under the file monitor, empty scripts, cross-script histories (B alters a table only A defines), a bystander object with the opposite flags constructed (never run) between the calls, scripts without any ';' whose last line starts a statement, the sdp command with --no-dump on a file / a directory under the file monitor.")
+        " Added after seeded defects: file_path / dump_path arguments without dump, parse_from_file under the file monitor, empty scripts, cross-script histories (B alters a table only A defines), a bystander object with the opposite flags constructed (never run) between the calls, scripts without any ';' whose last line starts a statement, the sdp command with --no-dump on a file / a directory under the file monitor, the common cross-process list walked in a different order by every worker and extended by one-statement cases that put the same option words after a LIKE body, after a column list, after an ALTER and after a CHECK.")
 ASSUMPTIONS = ["'another process' = same machine, same interpreter build", "dump=False throughout (C19 owns dumping)"]
 MIN_EVENTS = {"run_return": 500}
 HASHSEEDS = ["0", "1", "4242", "31337", "random", "7", "99999", "random"]
@@ -52,6 +52,13 @@ def gen_args(rng):
         a["dump_path"] = "out"
         a["file_path"] = "t.sql"
     return a
+
+
+CONTEXT_OPTIONS = ["WITH (fillfactor=70)", "COMMENT 'abc'", "STORED AS TEXTFILE", "OPTIONS (description='x')", "DEFAULT CHARSET=utf8", "TBLPROPERTIES ('a'='b')",
+                   "LOCATION 's3://b/k'", "TABLESPACE ts1", "ENGINE=InnoDB", "CLUSTER BY (id)", "PARTITIONED BY (id int)", "ON COMMIT DROP", "USING iceberg", "INHERITS (base)",
+                   "DATA_RETENTION_TIME_IN_DAYS = 3", "AUTO_INCREMENT=5", "ROW FORMAT DELIMITED", "WITHOUT ROWID", "AS SELECT 1", "key", "index"]
+CONTEXT_TEMPLATES = ["CREATE TABLE cx1 (LIKE src) {opt};\n", "CREATE TABLE cx2 LIKE s.src {opt};\n", "CREATE TABLE cx3 (id int, name varchar(20)) {opt};\n",
+                     "CREATE TABLE cx4 (id int);\nALTER TABLE cx4 ADD CONSTRAINT c1 UNIQUE (id) {opt};\n", "CREATE TABLE cx5 (id int CHECK (id > 0)) {opt};\n"]
 
 
 def gen_script(rng):
@@ -290,13 +297,25 @@ def run_shard(ctx):
     # (1) cross-process / hash-seed determinism: the same cases in every worker
     xr = ctx.sub_rng("xproc")
     corp = [c for c in load_corpus() if c["ok"]]
+    xcases = []
     for i in range(150 if ctx.tier == "quick" else 1500):
         if i % 3 == 2:
             c = corp[xr.randrange(len(corp))]
             ddl, ctor = c["ddl"], dict(c["init_kw"])
         else:
             ddl, ctor = gen_script(xr), ({"normalize_names": True} if xr.random() < 0.3 else {})
-        args = gen_args(xr)
+        xcases.append((ddl, ctor, gen_args(xr)))
+    # the same word in two lexer contexts (after LIKE / after a column list / as a name): one statement per case
+    for opt in CONTEXT_OPTIONS:
+        for tpl in CONTEXT_TEMPLATES:
+            xcases.append((tpl.format(opt=opt), {}, {}))
+    # every worker walks the common list in its own order: a result that depends on what the process parsed before differs between workers
+    order = list(range(len(xcases)))
+    if ctx.shard:
+        __import__("random").Random(ctx.seed * 7919 + ctx.shard).shuffle(order)
+    ctx.obs_sets["xproc_orders"].add(digest(order, 8))
+    for i in order:
+        ddl, ctor, args = xcases[i]
         ctx.evaluated()
         r = parse(ddl, ctor, **args)
         ctx.obs_sets["xproc"].add("%d=%s" % (i, digest(canon(r), 16)))
